@@ -9,7 +9,7 @@ only = sys.argv[1:]
 def sh(cmd, **kw): return subprocess.run(cmd, shell=True, capture_output=True, text=True, **kw)
 assert sh('git -C /repo status --porcelain --untracked-files=no').stdout.strip() == '', '/repo dirty'
 rows = []
-for d in sorted(S.glob('C*[ab]*')):
+for d in sorted(S.glob('C*[abc]*')):
     if not d.is_dir(): continue
     sid = d.name
     meta = json.loads((d/'meta.json').read_text())
